@@ -4,6 +4,7 @@ import (
 	"bytes"
 	"fmt"
 	"math/rand/v2"
+	"os"
 	"runtime"
 	"strconv"
 	"sync"
@@ -107,8 +108,10 @@ func (s *Sched) InOp(kind, ch string) {
 // durably blocked or waiting for a sync.Mutex, then collects new arrivals.
 // (Mutex waits are not durable, so synctest.Wait cannot be used here.)
 func (s *Sched) SettleExt() {
+	LastIters = -1
 	for i := 0; i < 200000; i++ {
 		if allWaiting() {
+			LastIters = i
 			break
 		}
 		runtime.Gosched()
@@ -126,19 +129,51 @@ func (s *Sched) SettleExt() {
 func allWaiting() bool {
 	buf := make([]byte, 1<<20)
 	buf = buf[:runtime.Stack(buf, true)]
-	for _, blk := range bytes.Split(buf, []byte("\n\n")) {
-		first, _, _ := bytes.Cut(blk, []byte("\n"))
-		if !bytes.Contains(first, []byte("synctest bubble")) || bytes.Contains(first, []byte("[running")) {
+	// every header line "goroutine N [state, ...]:" is looked at (not blocks between blank lines: the dump of a
+	// goroutine that is running on another thread is spaced differently); the first one is the caller itself
+	n := 0
+	for _, line := range bytes.Split(buf, []byte("\n")) {
+		if !bytes.HasPrefix(line, []byte("goroutine ")) || !bytes.HasSuffix(line, []byte("]:")) {
 			continue
 		}
-		if bytes.Contains(first, []byte("(durable)")) || bytes.Contains(first, []byte("sync.Mutex.Lock")) ||
-			bytes.Contains(first, []byte("sync.RWMutex")) {
+		n++
+		if n == 1 {
+			continue
+		}
+		// a goroutine that is running or runnable is not waiting - and the header of a runnable one does not say which
+		// bubble it belongs to: any such goroutine counts (those outside the bubble sit in channel receives)
+		if bytes.Contains(line, []byte("[runnable")) || bytes.Contains(line, []byte("[running")) {
+			return false
+		}
+		if !bytes.Contains(line, []byte("synctest bubble")) {
+			// no bubble named: the test's main goroutine (blocked in a channel receive for the whole run) - or a goroutine of
+			// the bubble that the runtime has taken out of it for a moment (it does so around GC work: such a goroutine
+			// waits for a runtime semaphore or does a share of the marking, and then goes on)
+			if bytes.HasPrefix(line, []byte("goroutine 1 [")) || bytes.Contains(line, []byte("[chan receive")) || bytes.Contains(line, []byte("[syscall")) {
+				continue
+			}
+			return false
+		}
+		if bytes.Contains(line, []byte("(durable)")) || bytes.Contains(line, []byte("sync.Mutex.Lock")) ||
+			bytes.Contains(line, []byte("sync.RWMutex")) {
 			continue
 		}
 		return false
 	}
+	if len(buf) == 1<<20 {
+		return false // truncated dump: no conclusion
+	}
+	if debugSettle {
+		LastSnapshot = string(buf)
+	}
 	return true
 }
+
+var debugSettle = os.Getenv("VERIF_DEBUG_SETTLE") != ""
+
+// LastSnapshot is the stack dump on which the extended quiescence was last concluded (debugging aid).
+var LastSnapshot string
+var LastIters int
 
 // Find returns the index of the first parked goroutine at site, or -1.
 func (s *Sched) Find(site string) int {
@@ -286,6 +321,9 @@ func (s *Sched) ReleaseRandom() bool {
 	s.ReleaseIdx(idx[s.Rng.IntN(len(idx))])
 	return true
 }
+
+// Holding reports whether an operation is held, or a hold is armed and not yet taken.
+func (s *Sched) Holding() bool { return s.Hold != nil || s.holdSite != "" }
 
 // Others reports the number of parked goroutines apart from the held one.
 func (s *Sched) Others() int {
